@@ -2,6 +2,7 @@ package chanfix
 
 import (
 	"fmt"
+	"strings"
 	"sync"
 	"time"
 
@@ -29,7 +30,7 @@ const RecServiceConfig = `{"loadBalancingConfig":[{"` + RecPolicy + `":{}}]}`
 type LBEvent struct {
 	Seq   int                `json:"seq"`
 	At    time.Duration      `json:"at"`
-	Kind  string             `json:"kind"` // build | close | new-sc | connect | shutdown | sc-state | lb-state | exit-idle | resolver-state
+	Kind  string             `json:"kind"` // build | close | new-sc | connect | shutdown | sc-state | lb-state | exit-idle | resolver-state | update-addrs
 	LB    int                `json:"lb"`   // balancer instance (a channel builds a new one each time it leaves idle)
 	SC    int                `json:"sc,omitempty"`
 	Addr  string             `json:"addr,omitempty"`
@@ -43,11 +44,12 @@ func (e LBEvent) String() string {
 
 // Recorder collects the log of one channel.
 type Recorder struct {
-	t0 time.Time
-	mu sync.Mutex
-	ev []LBEvent
-	lb int
-	sc int
+	t0   time.Time
+	mu   sync.Mutex
+	ev   []LBEvent
+	lb   int
+	sc   int
+	live map[int]balancer.SubConn // real (unwrapped) SubConns by id
 }
 
 // NewRecorder creates a recorder (inside the bubble: At is virtual time).
@@ -66,6 +68,27 @@ func (r *Recorder) Events() []LBEvent {
 	r.mu.Lock()
 	defer r.mu.Unlock()
 	return append([]LBEvent(nil), r.ev...)
+}
+
+// UpdateAddresses is a script command: it calls the (deprecated but still
+// supported) SubConn.UpdateAddresses on subchannel sc with a new address list,
+// the way grpclb or a custom policy would.  pick_first itself never does this.
+// The call is logged as an "update-addrs" event (Addr = comma separated list)
+// BEFORE it is made.  Returns false when the subchannel is unknown.
+func (r *Recorder) UpdateAddresses(sc int, addrs []string) bool {
+	r.mu.Lock()
+	inner := r.live[sc]
+	r.mu.Unlock()
+	if inner == nil || len(addrs) == 0 {
+		return false
+	}
+	var as []resolver.Address
+	for _, a := range addrs {
+		as = append(as, resolver.Address{Addr: a})
+	}
+	r.add(LBEvent{Kind: "update-addrs", SC: sc, Addr: strings.Join(addrs, ",")})
+	inner.UpdateAddresses(as)
+	return true
 }
 
 // Since returns the recorder's clock.
@@ -188,6 +211,12 @@ func (c *recCC) NewSubConn(addrs []resolver.Address, opts balancer.NewSubConnOpt
 	if err != nil {
 		return nil, err
 	}
+	c.rec.mu.Lock()
+	if c.rec.live == nil {
+		c.rec.live = map[int]balancer.SubConn{}
+	}
+	c.rec.live[id] = sc
+	c.rec.mu.Unlock()
 	// The child sees a wrapper (so that Connect / Shutdown are logged); the
 	// pickers it publishes are unwrapped again below, because the channel
 	// insists on its own SubConn type in pick results.
